@@ -108,6 +108,41 @@ def generate(rng, tier):
     return {'profile': ID, 'world': world, 'ops': ops, 'plan': plan, 'env': {'listing_seed': rng.randint(0, 99)}}
 
 
+N_SWEEPS_THOROUGH = 400
+SWEEP_RULE = ('for one doctest of a sampled world (one run_obj at a sampled verbosity / on_error / mode): KeyboardInterrupt and one '
+              'other exception injected at *every* in-scope line event of that run (doctest, called code, xdoctest incl. the tee '
+              'write), one event per variant')
+
+
+def sweep(rng, h):
+    import copy
+    cfg = gen.default_cfg()
+    if rng.random() < 0.4:
+        cfg['async_forms'] = list(gen.ASYNC_FORMS)
+        cfg['p_async'] = 0.35
+    cfg['n_modules'] = (1, 1)
+    cfg['n_funcs'] = (1, 2)
+    cfg['max_steps'] = rng.choice([3, 5, 7])
+    world = gen.gen_world(rng, cfg)
+    dt = rng.choice(gen.doctest_ids(world))
+    op = {'op': 'run_obj', 'dt': dt, 'verbose': rng.choice([0, 1, 2, 3]), 'on_error': rng.choice(['return', 'raise']),
+          'mode': rng.choice(['native', 'native', 'pytest'])}
+    base = {'profile': ID, 'world': world, 'ops': [op, {'op': 'probe'}], 'plan': [], 'env': {'listing_seed': rng.randint(0, 99)}}
+    sites = ''
+    for d, k, c in h['count_events'](base):
+        if d == dt and k == 0:
+            sites = c
+    excs = ['KeyboardInterrupt', rng.choice(['SystemExit', 'MemoryError', 'RecursionError'])]
+    step = 1 if len(sites) <= 160 else 2
+    out = []
+    for ordinal in range(1, len(sites) + 1, step):
+        for exc in excs:
+            v = copy.deepcopy(base)
+            v['plan'] = [{'dt': dt, 'k': 0, 'trace': ordinal, 'trace_of': len(sites), 'exc': exc}]
+            out.append(v)
+    return out or [base]
+
+
 def check(rec):
     out = []
     for e in rec['execs']:
